@@ -25,4 +25,50 @@ var props = []Prop{
 	},
 }
 
+const codesSummary = eng.RepoMod + "/src/codes.ZZCodesSummary"
+const codesReal = eng.RepoMod + "/src/codes.GetCodesForCheck"
+
+func withCodesSummary(ex *eng.Explorer, tier string) {
+	if ex.Redirects == nil {
+		ex.Redirects = map[string]string{}
+	}
+	ex.Redirects[codesReal] = codesSummary
+}
+
+func init() {
+	props = append(props,
+		Prop{
+			ID: "C16",
+			Runs: []Run{
+				{Harness: "codes.ZZLemmaCodesSummary", Desc: "lemma: for every string (atom, any length) codes.GetCodesForCheck yields ALL, the category if any, the code itself — i.e. equals the 3-line summary used by the history harnesses; real table lookup forks over its 21 keys + unknown",
+					Bounds: map[string]interface{}{"code": "arbitrary string (opaque atom)"}},
+				{Harness: "util.ZZC16Empty", Desc: "nil / uninitialised / initialised-empty collection never suppresses", Bounds: map[string]interface{}{"code": "arbitrary atom", "pos": "any int"}},
+				{Harness: "util.ZZC16History2", Desc: "every history of <= 2 add-operations (scoped or global, 1-2 arbitrary code strings each, arbitrary ranges incl. empty/reversed) then a query: Contains == list-scan reference",
+					Bounds: map[string]interface{}{"ops": "0..2", "codes_per_op": "1..2 (arbitrary strings, atoms)", "range": "start,end in [1,2^31)", "query_pos": "[0,2^31)"}, Setup: withCodesSummary},
+				{Harness: "util.ZZC16History4One", Desc: "every history of <= 4 add-operations with one code each", Bounds: map[string]interface{}{"ops": "0..4", "codes_per_op": 1, "range": "start,end in [1,2^31)", "query_pos": "[0,2^31)"}, Setup: withCodesSummary},
+				{Harness: "util.ZZC16History3", Tier: "thorough", Desc: "every history of <= 3 add-operations with 1-2 codes each", Bounds: map[string]interface{}{"ops": "0..3", "codes_per_op": "1..2"}, Setup: withCodesSummary},
+			},
+			Outside:     []string{"more than 4 markers in one collection; more than 2 codes per marker; ranges containing token.NoPos (0) (outside the property's precondition)", "Add on a nil receiver (no call site passes nil)"},
+			Assumptions: []string{"codes are compared only for equality by the code under test (atoms: any other use aborts the run as inconclusive)", "GetCodesForCheck replaced by its summary in the history harnesses; the summary is proved equal to the real function by the lemma harness on every run"},
+		},
+		Prop{
+			ID: "C18",
+			Runs: []Run{
+				{Harness: "config.ZZC18Scan", Desc: "scan-tests: arbitrary GOGREEMENT_SCAN_TESTS (set?, any ASCII string) x flag (absent or any spelling flag accepts); other options absent; all three Config fields compared with the reference resolution",
+					Bounds: map[string]interface{}{"env_value_bytes": 12, "flag_values": "12 spellings accepted by flag.BoolVar"}},
+				{Harness: "config.ZZC18Paths", Desc: "exclude-paths: arbitrary env value and flag value", Bounds: map[string]interface{}{"value_bytes": 8, "commas": 2}},
+				{Harness: "config.ZZC18Checks", Desc: "exclude-checks: arbitrary env value and flag value (upper-casing)", Bounds: map[string]interface{}{"value_bytes": 8, "commas": 2}},
+				{Harness: "config.ZZC18Cross", Desc: "priority and absence of cross-talk: all 2^6 combinations of {flag given, env set} x 3 options with fixed pairwise-different values, 12 flag spellings", Bounds: map[string]interface{}{"presence_grid": "2^6", "values": "fixed"}},
+				{Harness: "config.ZZC18ScanLong", Tier: "thorough", Desc: "scan-tests env value up to 24 bytes", Bounds: map[string]interface{}{"env_value_bytes": 24}},
+				{Harness: "config.ZZC18PathsLong", Tier: "thorough", Desc: "exclude-paths values up to 10 bytes, 2 commas", Bounds: map[string]interface{}{"value_bytes": 10, "commas": 2}, Setup: func(ex *eng.Explorer, tier string) { ex.TimeoutMS = 240000 }},
+				{Harness: "config.ZZC18ChecksLong", Tier: "thorough", Desc: "exclude-checks values up to 10 bytes, 2 commas", Bounds: map[string]interface{}{"value_bytes": 10, "commas": 2}, Setup: func(ex *eng.Explorer, tier string) { ex.TimeoutMS = 240000 }},
+			},
+			Outside: []string{"argv parsing and the 'config.' flag prefix added by x/tools multichecker; the process start of cmd/gogreement (the observation point is the *Config returned by ParseFlagsFromFlagSet, which runConfig hands to every analyzer)",
+				"values longer than the stated byte bounds or with more commas; non-ASCII bytes (unicode.IsSpace / ToUpper beyond ASCII)", "two options with long arbitrary values at the same time (only one option is arbitrary per harness; the presence grid is checked with fixed values)",
+				"boolean flag values that flag.Parse itself rejects (the tool exits with usage before any analyzer runs)"},
+			Assumptions: []string{"GOGREEMENT_ENV_ONLY unset (as in the property)", "os.Getenv/LookupEnv stubbed as arbitrary (set?, value)", "flag.FlagSet, strconv.ParseBool executed from their SSA"},
+		},
+	)
+}
+
 var _ = eng.RepoMod
